@@ -26,7 +26,7 @@ CHECKS = {
     ),
     "C05": dict(
         technique="shadow clip-stack model + effective-clip probe after every push/pop, pop-restore and push-order differentials, unclipped-twin differential for rectangular clips",
-        text="Random well-nested clip histories (rects and paths in every order, inverted/disjoint/oversized/off-surface rects, AA clip paths, interleaved transforms, layers and draws) with the observed effective clip checked against the model of the whole stack after every change; rect-clipped draws equal unclipped draws exactly inside the clip. Held on what was run.",
+        text="Random well-nested clip histories (rects and paths in every order, inverted/disjoint/oversized/off-surface rects, AA clip paths, interleaved transforms, layers and draws) with the observed effective clip checked against the model of the whole stack after every change; rect-clipped draws equal unclipped draws exactly inside the clip. Held on what was run. Also: clip paths pushed under singular transforms (they let nothing through), and the target's effective clip probed against a clip-only twin after every pop_layer that leaves clips in force on the surface.",
         note="Per-path coverage maps are probe renders of the pre-transformed path; the product band is ceil((paths-1)/2)+1 LSB. The effective clip is observed by a white fill on zeroed pixels (pixels and transform restored).",
         ref="DESIGN.md section 3, C05",
     ),
@@ -74,13 +74,13 @@ CHECKS = {
     ),
     "C08": dict(
         technique="reference-model monitor: f64 path interpreter, winding number and distance to the finely sampled outline at every pixel centre of generated curved fills and clip paths",
-        text="Generated paths mixing move/line/quad/cubic/arc/close (looping, cusped, coincident control points, commands after close, missing MoveTo, control points out to +-3500) under invertible transforms, both rules and AA modes, as fills and as clip paths; every pixel more than 1 px from the exact outline must be 255 inside / 0 outside. Held on the paths run. Also: diagonal curves 800-7000 px long whose turning point lies within 1/256 of the parameter range from an end, and outlines (or full turns of arc) that end 1e-6..3e-4 px from their start next to a sample row with a second shape to their right.",
+        text="Generated paths mixing move/line/quad/cubic/arc/close (looping, cusped, coincident control points, commands after close, missing MoveTo, control points out to +-3500) under invertible transforms, both rules and AA modes, as fills and as clip paths; every pixel more than 1 px from the exact outline must be 255 inside / 0 outside. Held on the paths run. Also: diagonal curves 800-7000 px long whose turning point lies within 1/256 of the parameter range from an end, almost straight cubics of the same length, and outlines (or full turns of arc) that end 1e-6..3e-4 px from their start next to a sample row with a second shape to their right.",
         note="Curves sampled at 256 steps in f64; in the mixed random paths arcs are taken through the control points PathBuilder::arc emitted (C20 owns their geometry); a separate workload of discs, pies and rings built with arc() is judged against the true circles, direction included.",
         ref="DESIGN.md section 3, C08",
     ),
     "C09": dict(
         technique="reference-model monitor: independent f64 arc-length dasher feeding the C04 region oracle, plus a polyline-level check of the private dash_path through the verif_dash_path hook",
-        text="Generated dashed strokes (open/closed subpaths, arrays of 1..6 positive entries incl. entries longer than the path and odd lengths, offsets of both signs up to +-2e4, all caps/joins) are compared pixel by pixel with the region of the independently dashed pieces (0.75 px margin); dash_path's output must conserve the on-length, stay on the input path and have the expected number of connected pieces; non-positive totals must paint nothing. Held on the cases run. Also: whole-number rectangles with whole dash lengths (boundaries exactly on vertices, round caps and joins), spokes from one centre, closed polygons of 28-80 sides inside the first dash, dashes turning straight back, and whole-number geometry (axis-aligned and Pythagorean segments, closed and open) with dash entries taken from the segment lengths and offsets of -0.0 and exact multiples of the pattern length, for every cap and join.",
+        text="Generated dashed strokes (open/closed subpaths, arrays of 1..6 positive entries incl. entries longer than the path and odd lengths, offsets of both signs up to +-2e4, all caps/joins) are compared pixel by pixel with the region of the independently dashed pieces (0.75 px margin); dash_path's output must conserve the on-length, stay on the input path and have the expected number of connected pieces; non-positive totals must paint nothing. Held on the cases run. Also: whole-number rectangles with whole dash lengths (boundaries exactly on vertices, round caps and joins), spokes from one centre, closed polygons of 28-80 sides inside the first dash, dashes turning straight back, and whole-number geometry (axis-aligned and Pythagorean segments, closed and open) with dash entries taken from the segment lengths and offsets of -0.0 and exact multiples of the pattern length, for every cap and join; outlines that return to their start before Close, gaps of no length, entries whose sum is infinite in f32.",
         note="Cases with a dash boundary within 0.02 px of a vertex are skipped unless caps and joins are Round (cap orientation would flip on f32 rounding); near the two ends of a subpath they are skipped for Round too (a sliver there is a whole dot); neither applies to the whole-number workloads, where the arithmetic is exact. The guard includes boundaries up to 1 px beyond either end of a subpath. Larger offsets are left to C07 (f32 period rounding moves the phase).",
         ref="DESIGN.md section 3, C09",
     ),
@@ -98,19 +98,19 @@ CHECKS = {
     ),
     "C11": dict(
         technique="exact differentials: pre-transformed path vs transform on the target; identity vs T for device-space calls; singular-T no-op monitor; transform-preservation monitor",
-        text="fill under T vs fill of Path::transform(T) under the identity must be bit-identical (all op kinds, AA modes, under clips and in layers); singular T must leave every pixel unchanged for fill/stroke/fill_rect/draw_image; push_clip_rect, mask(solid), copy_surface, blend_surface* must not depend on T; clear/pop_layer must leave get_transform() bitwise unchanged. Sources and strokes under T are judged by the C12/C13/C04 oracles, which draw random transforms. Held on what was run.",
+        text="fill under T vs fill of Path::transform(T) under the identity must be bit-identical (all op kinds, AA modes, under clips and in layers); singular T must leave every pixel unchanged for fill/stroke/fill_rect/draw_image; push_clip_rect, mask(solid), copy_surface, blend_surface* must not depend on T; clear/pop_layer must leave get_transform() bitwise unchanged. Sources and strokes under T are judged by the C12/C13/C04 oracles, which draw random transforms. Held on what was run. Also: straight shapes in solid colours at user scales of 2^-66..2^60 (determinants down to subnormal), a tiny transform replaced at once by another, and curved strokes under scales that stretch one axis 16..64 times more than the other.",
         note="mask() with a solid source under a singular transform is not asserted (the statement is silent on which clause wins). The C13/C12 oracles are also run from this check under a current transform in every case (well-conditioned matrices) and count for C11. Power-of-two user-space scalings must give bit-identical pictures (solid, linear, radial and image sources); text under a scale is compared with the same text at the scaled size by ink and centre of gravity.",
         ref="DESIGN.md section 3, C11",
     ),
     "C12": dict(
         technique="reference-model monitor: analytic gradient parameter and stop interpolation in f64 evaluated at T^-1 of every pixel centre of generated gradient fills",
-        text="Generated linear/radial/two-circle/sweep gradients (1..5 increasing stops, three spreads, alpha, geometry inside/across/far outside the surface, random invertible transforms) observed through a full-surface Src fill; every channel must lie within 4/255 of the reference colour range for t within 3/255 (+|t|/255 for two-circle and sweep) of the pixel's t, folded through the spread. Held on what was run; sweeps with a non-zero start angle hit a known finding in sw-composite (exact signature). Also: gradients a few pixels long thousands of lengths away, sweeps of more than one turn, the current transform equal to the gradient's own frame, the same gradient observed through mask().",
+        text="Generated linear/radial/two-circle/sweep gradients (1..5 increasing stops, three spreads, alpha, geometry inside/across/far outside the surface, random invertible transforms) observed through a full-surface Src fill; every channel must lie within 4/255 of the reference colour range for t within 3/255 (+|t|/255 for two-circle and sweep) of the pixel's t, folded through the spread. Held on what was run; sweeps with a non-zero start angle hit a known finding in sw-composite (exact signature). Also: gradients a few pixels long thousands of lengths away, sweeps of more than one turn, the current transform equal to the gradient's own frame, the same gradient observed through mask(). Also: the same gradient drawn first under a transform that differs by a vertical or horizontal shift only, gradients drawn under user scales of 2^20..2^34, and ramps returning to their first colour inside surfaces 40..64 px wide.",
         note="Pixels within 1.5 px of a sweep centre, on the sweep seam or at a two-circle double root are not asserted. The largest excess over the reference interval seen is reported (below 3 LSB on the unchanged tree).",
         ref="DESIGN.md section 3, C12",
     ),
     "C13": dict(
         technique="reference-model monitor: f64 image sampler (nearest texel / 4-bit bilinear weights, pad/repeat) evaluated at M(pixel centre) of generated image fills and draw_image calls",
-        text="Generated images with position-encoding texels, both extend modes and filters, alpha, source and current transforms (integer/fractional/half-texel translations, scales incl. negative, rotations, far beyond the edges): Nearest must return exactly the texel under the pixel centre, Bilinear the 4-bit-weighted interpolation within 1 LSB and exactly the texel at texel centres; draw_image_at/with_size_at are checked against the statement. Held on what was run. Also: exact mirror transforms, pixel slices longer than the image, surfaces 300-900 px wide under a 1/64..1/128 scale with a compensating source translation, strongly minifying current transforms cancelled by the source transform, whole-number translations of 2^20..2^24 for the whole-number route, surfaces 257-1065 px wide, and observation through SrcOver as well as Src.",
+        text="Generated images with position-encoding texels, both extend modes and filters, alpha, source and current transforms (integer/fractional/half-texel translations, scales incl. negative, rotations, far beyond the edges): Nearest must return exactly the texel under the pixel centre, Bilinear the 4-bit-weighted interpolation within 1 LSB and exactly the texel at texel centres; draw_image_at/with_size_at are checked against the statement. Held on what was run. Also: exact mirror transforms, pixel slices longer than the image, surfaces 300-900 px wide under a 1/64..1/128 scale with a compensating source translation, strongly minifying current transforms cancelled by the source transform, whole-number translations of 2^20..2^24 for the whole-number route, surfaces 257-1065 px wide, observation through SrcOver as well as Src, and draw_image_at beyond pixel 32760 on surfaces up to 70000 px long.",
         note="Samples within the 16.16 conversion error of a texel or weight boundary accept either neighbour (counted); the band is zero for exact integer translations, so the integer fast paths must be exact.",
         ref="DESIGN.md section 3, C13",
     ),
@@ -122,7 +122,7 @@ CHECKS = {
     ),
     "C15": dict(
         technique="reference block-transfer model evaluated on every destination pixel; small space enumerated completely in the thorough tier; ASan and Miri runs for the memory side",
-        text="copy_surface, blend_surface and blend_surface_with_alpha are compared per destination pixel with 'source pixel src_rect.min + (q - dst) lands on q iff it lies in src_rect and in the source'; sizes 0..3, rect corners in [-2,5], dst in [-4,5] (sampled in quick, all 3.1e8 combinations in thorough) plus larger and far-away cases; transform, clip and an open layer on the destination must be ignored. Held on what was run. Also: source rectangles wider than i32::MAX whose far corner still lands the block, sources with an open layer, clip or transform of their own, sources built from longer recycled vectors.",
+        text="copy_surface, blend_surface and blend_surface_with_alpha are compared per destination pixel with 'source pixel src_rect.min + (q - dst) lands on q iff it lies in src_rect and in the source'; sizes 0..3, rect corners in [-2,5], dst in [-4,5] (sampled in quick, all 3.1e8 combinations in thorough) plus larger and far-away cases; transform, clip and an open layer on the destination must be ignored. Held on what was run. Also: source rectangles wider than i32::MAX whose far corner still lands the block, sources with an open layer, clip or transform of their own, sources built from longer recycled vectors. Sources also with whole rows of black at some opacity, transparent, or one colour.",
         note="blend_surface is exact against the formula of record; blend_surface_with_alpha uses the C03 SrcOver rule (3 LSB between the exact end points).",
         ref="DESIGN.md section 3, C15",
     ),
